@@ -14,6 +14,7 @@ import Proofs.MaxpoolVJP
 import Proofs.DenseBlock
 import Proofs.ConvNet
 import Proofs.ChainLinks
+import Proofs.BlockLinks
 
 /-!
 # C01 — backpropagated gradients are the true derivatives of the objective
@@ -638,6 +639,43 @@ theorem conv_pool_mlp_gradients {c0 h0 w0 f1 kh1 kw1 h1 w1 h2 w2 k : ℕ} (n : N
   · have := hpar.1
     simp only [hfwdK] at this
     exact this
+
+open Network LayerChain ChainBlock in
+/-- **any feedback block without internal skip connections is a link** — its unrolled inner layers (dense,
+    convolution, deconvolution, in any order; the repetitions are what the block holds) realise a chain of vector
+    functions: as a layer of `Network.forward` / `Network.backward` the block computes the chain's composition, and on
+    what its own forward recorded its `Feedback::backward` hands back the chain's reverse-mode gradient — the
+    transposed Jacobian of the block when every inner backward is one -/
+theorem feedback_block_is_link {a : Idx} {ea : Enc a} {c : Idx} {ec : Enc c} (f : Feedback ℝ) (ch : Chain a ea c ec)
+    (ils : List (InnerLayer ℝ)) (hf : IsChainBlock f ils) (x : V a.T) (hr : InnerReal ch ils x) (hpos : ils ≠ [])
+    (hok : (gnet ch).Ok x) :
+    (layerForward (.feedback f) (ea x) = .ok (blockPre ea f x, ec ((gnet ch).fwd x), blockRecd ea f x) ∧
+     ∀ g, layerBackward (.feedback f) (ec g) (ea x) (blockPre ea f x) (.ok (blockRecd ea f x)) =
+      .ok (ea ((gnet ch).bwd x g), (blockWGs f ch x g).1, (blockWGs f ch x g).2)) ∧
+    IsVJP (gnet ch).fwd x ((gnet ch).bwd x) :=
+  ⟨real_chain_block f ch ils hf x hr hpos, GNet.vjp (gnet ch) x hok⟩
+
+open Network LayerChain ChainBlock ChainLinks BlockLinks ConvVJP ConvBridge ConvNet in
+/-- instance: **a feedback block of a shape-preserving convolution with two loops** (the unrolled list holds the
+    convolution twice) computes `conv ∘ conv` and hands back `convᵀ ∘ convᵀ` of the gradient -/
+theorem two_loop_conv_block_is_link {kf kh kw ih iw : ℕ} (f : Feedback ℝ) (l : Conv ℝ) (a : Act) (K : V (I4 kf kf kh kw))
+    (hl : IsConv l a K ih iw ih iw) (ha : a ≠ .softmax) (hfl : l.flatten = false)
+    (hf : IsChainBlock f [.conv l, .conv l]) (x : V (I3 kf ih iw))
+    (hk1 : ∀ i, NoKink a (pre l K ih iw ih iw x i))
+    (hk2 : ∀ i, NoKink a (pre l K ih iw ih iw (convFn l a K ih iw ih iw x) i)) :
+    let ch := consConv (oh := ih) (ow := iw) l a K ih iw (consConv (oh := ih) (ow := iw) l a K ih iw (Chain.nil (iVol kf ih iw) (eVol kf ih iw)))
+    (layerForward (.feedback f) (T3 x) =
+        .ok (blockPre (eVol kf ih iw) f x, T3 (convFn l a K ih iw ih iw (convFn l a K ih iw ih iw x)), blockRecd (eVol kf ih iw) f x) ∧
+     ∀ g, layerBackward (.feedback f) (T3 g) (T3 x) (blockPre (eVol kf ih iw) f x) (.ok (blockRecd (eVol kf ih iw) f x)) =
+      .ok (T3 (convBwdX l a K ih iw ih iw x (convBwdX l a K ih iw ih iw (convFn l a K ih iw ih iw x) g)),
+        (blockWGs f ch x g).1, (blockWGs f ch x g).2)) ∧
+    IsVJP (fun z => convFn l a K ih iw ih iw (convFn l a K ih iw ih iw z)) x
+      (fun g => convBwdX l a K ih iw ih iw x (convBwdX l a K ih iw ih iw (convFn l a K ih iw ih iw x) g)) := by
+  intro ch
+  have hr : InnerReal ch [.conv l, .conv l] x :=
+    innerReal_conv l a K hl ha hfl _ _ x (innerReal_conv l a K hl ha hfl _ _ _ rfl)
+  have hok : (gnet ch).Ok x := ⟨vjp_conv l a K hl ha x hk1, vjp_conv l a K hl ha _ hk2, trivial⟩
+  exact feedback_block_is_link f ch _ hf x hr (by simp) hok
 
 open DeconvBridge ConvVJP ConvBridge in
 /-- non-vacuity: a 2-filter 2×3 transposed convolution with stride (2,1) and padding (0,1) on a 1×3×4 input -/
